@@ -99,6 +99,13 @@ def iterate [Mul K] [Add K] [Sub K] [Zero K] (keep : K → Bool) (s : State K) :
     | some c => { s with pts := pr.1, factors := pr.1.map (·.f), resultAll := some (ra + pr.2 + c) }
     | none => { s with pts := pr.1, err := true }
 
+/-- a TEMPTING BUT WRONG variant of the update (kept to document why it is wrong, see
+    `Props/C10.lean: skip_rule_loses_weight_changes`): "if process() evaluated no new K-point in this iteration,
+    nothing has changed, skip the bookkeeping".  Weights can move without any new evaluation: every new child
+    may be absorbed by an already evaluated equivalent point. -/
+def iterateSkip [Mul K] [Add K] [Sub K] [Zero K] (keep : K → Bool) (s : State K) : State K :=
+  if s.resultAll.isSome && s.pts.all (·.ev) then s else iterate keep s
+
 /-! ### refinement -/
 
 def zeroAt [Zero K] : Nat → List (KP K) → List (KP K)
@@ -149,6 +156,10 @@ def iteration [Mul K] [Add K] [Sub K] [Zero K] [Div K] [NatCast K] (keep : K →
 def runIters [Mul K] [Add K] [Sub K] [Zero K] [Div K] [NatCast K] (keep : K → Bool) (mode : Mode)
     (init : List (K × K)) (iters : List (List (RefOp K))) : State K :=
   iters.foldl (iteration keep) (iterate keep (start mode init))
+
+def runItersSkip [Mul K] [Add K] [Sub K] [Zero K] [Div K] [NatCast K] (keep : K → Bool) (mode : Mode)
+    (init : List (K × K)) (iters : List (List (RefOp K))) : State K :=
+  iters.foldl (fun s ops => iterateSkip keep (ops.foldl refStep s)) (iterate keep (start mode init))
 
 /-- the specification: weighted sum over the current K-point list -/
 def wsum [Mul K] [Add K] [Zero K] : List (KP K) → K
